@@ -2,7 +2,8 @@
    Models: Gram/TreeBuilder.v (builder.addNode of go_ast_parse.go.tmpl on a stack of trees; the conditions
    ok_events / in_input on event streams; wf_forest on the result). *)
 From Coq Require Import List ZArith Bool Permutation.
-From TM Require Import Gram.TreeBuilder Gram.TreeBuilder_proofs.
+From TM Require Import Gram.PTables Gram.Run Gram.Validator Gram.Events Gram.Events_proofs Gram.Events_strict Gram.Events_run
+  Gram.TreeBuilder Gram.TreeBuilder_proofs Gram.Events_nest.
 Import ListNotations.
 Local Open Scope Z_scope.
 
@@ -21,10 +22,71 @@ Theorem C20_add_node_keeps_the_forest :
   binv (e :: seen) (add_node st e).
 Proof. exact add_node_inv. Qed.
 
-(* NOT proved here (partial): that the parse loop with error recovery only emits ok_events streams. Without
-   recovery this follows from C02 (events are the spans of the forest on the stack); with recovery, injected
-   tokens and the hand-written js loop it is monitored on every run: ok_events and in_input are evaluated on the
-   listener callbacks of the shipped tm, js, json and test parsers on valid and broken inputs. *)
+(* Producer half, for the parse loop with fixWhitespace and without error recovery (Gram/Events.v xrun).
+   For EVERY machine, event table whose reports are laminar with inner arrows first (nested_table; what
+   generateTables' post-order traversal emits), input of ordered non-empty tokens inside [0, eoi_off], fuel and
+   outcome (accepted, syntax error, out of fuel -- wherever the loop stops): if the trees on the final stack are
+   well formed (wf_tree, the hypothesis of C02) and an end-of-input leaf only occurs as a stack entry of its own,
+   the listener events emitted so far are well nested (ok_events: pairwise disjoint or nested, a container
+   after its contents) and lie inside the input (in_input).
+   Proof: by C02 the events are those of the forest on the stack and each is the span of a sub-forest (or the
+   empty range at the following token); spans of nested/disjoint child segments are nested/disjoint, events of
+   different stack entries are disjoint and ordered. *)
+Theorem C20_parser_events_are_well_nested :
+  forall m evt rl eoi_off fuel start end_state input o c',
+  nested_table evt ->
+  Forall (fun t => t_sym t <> 0) input ->
+  ordered (map tok_range input) eoi_off ->
+  Forall (fun t => 0 <= t_off t) input -> 0 <= eoi_off ->
+  xrun fuel m evt true start end_state eoi_off input = (o, c') ->
+  Forall (fun e => wf_tree evt rl (x_tree e)) (xc_stack c') ->
+  Forall (fun e => is_leaf (x_tree e) \/ ~ In (eoi_off, eoi_off) (leaves (x_tree e))) (xc_stack c') ->
+  ok_events (xc_events c') = true /\ in_input eoi_off (xc_events c') = true.
+Proof. exact xrun_events_nested. Qed.
+
+(* the same with a condition on the machine instead of the final stack: end-of-input is only shifted into the end
+   state (then the loop stops, so an end-of-input leaf is never reduced into a tree) *)
+Theorem C20_parser_events_are_well_nested_eoi :
+  forall m evt rl eoi_off fuel start end_state input o c',
+  nested_table evt -> eoi_stops m end_state ->
+  Forall (fun t => t_sym t <> 0) input ->
+  ordered (map tok_range input) eoi_off ->
+  Forall (fun t => 0 <= t_off t) input -> 0 <= eoi_off ->
+  xrun fuel m evt true start end_state eoi_off input = (o, c') ->
+  Forall (fun e => wf_tree evt rl (x_tree e)) (xc_stack c') ->
+  ok_events (xc_events c') = true /\ in_input eoi_off (xc_events c') = true.
+Proof. exact xrun_events_nested_eoi. Qed.
+
+(* Consequently the AST builder fed by such a parser builds a well-formed forest with exactly the reported nodes *)
+Theorem C20_parser_and_builder :
+  forall m evt rl eoi_off fuel start end_state input o c',
+  nested_table evt ->
+  Forall (fun t => t_sym t <> 0) input ->
+  ordered (map tok_range input) eoi_off ->
+  Forall (fun t => 0 <= t_off t) input -> 0 <= eoi_off ->
+  xrun fuel m evt true start end_state eoi_off input = (o, c') ->
+  Forall (fun e => wf_tree evt rl (x_tree e)) (xc_stack c') ->
+  Forall (fun e => is_leaf (x_tree e) \/ ~ In (eoi_off, eoi_off) (leaves (x_tree e))) (xc_stack c') ->
+  wf_forest (rev (build (xc_events c'))) = true /\
+  Permutation (forest_nodes (rev (build (xc_events c')))) (xc_events c').
+Proof. exact xrun_builder_correct. Qed.
+
+(* the events of one derivation tree: pairwise compatible, inside the tree's span or empty at the following token *)
+Theorem C20_events_of_a_tree_are_nested :
+  forall evt rl, nested_table evt -> forall t, wf_tree evt rl t -> forall aft, ordered (leaves t) aft ->
+  okp (spec_events (arrows_of_ev rl evt) t aft) /\
+  evs_in (span_of (leaves t) aft) aft (spec_events (arrows_of_ev rl evt) t aft).
+Proof. exact tree_nest. Qed.
+
+(* the laminarity hypothesis has a boolean form *)
+Theorem C20_nested_table_is_checkable : forall evt, nested_tableb evt = true -> nested_table evt.
+Proof. exact nested_tableb_sound. Qed.
+
+(* NOT proved here (partial): the same for the loop with error recovery (Gram/Recover.v: the error entry pushed by
+   recoverFromError spans dropped stack entries and skipped tokens), for injected/reported tokens and for the
+   hand-written js loop; and for parsers without fixWhitespace (there a node ending with an empty symbol extends
+   over the following whitespace, see C02). These are monitored on every run: ok_events and in_input are
+   evaluated on the listener callbacks of the shipped tm, js, json and test parsers on valid and broken inputs. *)
 
 (* non-vacuity: a stream with nested, empty and out-of-order nodes *)
 Example C20_example :
@@ -33,5 +95,29 @@ Example C20_example :
   rev (build evs) = [BNode 6 0 9 [BNode 2 0 0 []; BNode 5 2 8 [BNode 1 2 3 []; BNode 4 4 4 []; BNode 3 5 7 []]]].
 Proof. vm_compute. split; reflexivity. Qed.
 
+(* non-vacuity of the producer theorem: the tables of C02's example  N0 : 'a' ('b' 'b' -> T2) N0 -> T1 | %empty -> T3 *)
+Definition t0 : default_enc :=
+  mkDefaultEnc [-3; -1; -1; -9; 0; -1; -2] [2; -1; 0; 1; -1; -2; 2; -1; 0; 1; -1; -2] [0; 2; 2; 6; 10; 14]
+               [5; 6; 0; 1; 3; 1; 1; 2; 2; 3; 0; 5; 3; 4].
+Definition m0 : machine := lalr1_machine t0 [4; 0] [4; 4].
+Definition evt0 : ev_table := [mkEvRule 1 [(1%nat, 3%nat, 2)] true; mkEvRule 3 [] false].
+Definition input0 : list tok := [mkTok 2 0 1; mkTok 3 2 3; mkTok 3 3 4; mkTok 2 5 6; mkTok 3 6 7; mkTok 3 7 8].
+
+Example C20_producer_example :
+  nested_tableb evt0 = true /\
+  let '(o, c) := xrun 100 m0 evt0 true 0 6 9 input0 in
+  o = Accept /\
+  forallb (fun e => wf_treeb evt0 (zn [4; 0]) (x_tree e)) (xc_stack c) = true /\
+  map (fun e => match x_tree e with TLeaf _ _ _ => true | t => negb (existsb (fun r => (fst r =? 9) && (snd r =? 9)) (leaves t)) end)
+      (xc_stack c) = [true; true; true] /\
+  xc_events c = [(3, 9, 9); (2, 6, 8); (1, 5, 8); (2, 2, 4); (1, 0, 8)] /\
+  ok_events (xc_events c) = true /\ in_input 9 (xc_events c) = true.
+Proof. vm_compute. repeat split; reflexivity. Qed.
+
 Print Assumptions C20_builder_correct.
+Print Assumptions C20_parser_events_are_well_nested.
+Print Assumptions C20_parser_events_are_well_nested_eoi.
+Print Assumptions C20_parser_and_builder.
+Print Assumptions C20_events_of_a_tree_are_nested.
+Print Assumptions C20_nested_table_is_checkable.
 Print Assumptions C20_add_node_keeps_the_forest.
